@@ -16,6 +16,8 @@ CD = "src/card/card.rs"
 RR = "src/card/rank_range.rs"
 SD = "src/evaluator/showdown.rs"
 
+OLD_LOOP = '        for high_rank in RankRange::all() {\n            for kicker_rank in RankRange::inclusive(high_rank, Rank::Deuce) {\n                for high_suit in SuitRange::all() {\n                    for kicker_suit in SuitRange::all() {\n                        let pair = CardPair::new(\n                            Card::new(high_rank, high_suit),\n                            Card::new(kicker_rank, kicker_suit),\n                        );\n                        let probability = orphan_card_pairs.get(&pair);\n\n                        if let Some(probability) = probability {\n                            tokens.push(HandRangeToken::new(\n                                HandRangeTokenKind::SingleCardPair(pair),\n                                *probability,\n                            ));\n                        }\n                    }\n                }\n            }\n        }\n'
+
 MUTANTS = [
     M("c04-write-before-exhaust", ["C04"], (FE, """        if self.current_turn_index >= self.turn_to && self.current_river_index >= self.river_to {
             return None;""", """        if self.current_turn_index >= self.turn_to && self.current_river_index >= self.river_to {
@@ -123,6 +125,29 @@ MUTANTS = [
     M("c12-weight-not-compared", ["C12"], (HRS, "                    .all(|cp| self.0.get(&cp).is_some_and(|p| p == probability))\n                {\n                    rank_pairs.insert(pocket, *probability);", "                    .all(|cp| self.0.get(&cp).is_some_and(|p| p <= probability))\n                {\n                    rank_pairs.insert(pocket, *probability);")),
     M("c12-orphan-skip", ["C12"], (HRS, "            for card_pair in rank_pair {\n                clone.remove(&card_pair);", "            for card_pair in rank_pair.into_iter().skip(1) {\n                clone.remove(&card_pair);")),
     M("c12-reported-weight-const", ["C12"], (HRS, "                    rank_pairs.insert(pocket, *probability);", "                    rank_pairs.insert(pocket, 1.0);")),
+    M("c11-club-special", ["C11"], (MH, "        if card.suit() == suit {\n            hash +=", "        if card.suit() == suit && *suit != Suit::Club {\n            hash +=")),
+    M("c11-suit-order", ["C11"], (MH, "        if card.suit() == suit {\n            hash +=", "        if card.suit() >= suit {\n            hash +=")),
+    M("c11-suit-match", ["C11"], (SD, "            let power_index = made_hand.power_index();", "            let power_index = made_hand.power_index() + match player[0].suit() { crate::card::Suit::Spade => 0, _ => 0 };")),
+    M("c11-suit-code-arith", ["C11"], (MH, "        let suit_index = u8::from(suit) as usize;\n\n        suit_counts[suit_index] += 1;", "        let suit_index = u8::from(suit) as usize;\n\n        suit_counts[suit_index] += 1 + (suit_index / 4) as i32;")),
+    M("c11-fixed-slot", ["C11"], (MH, "        if suit_counts[suit_index] >= 5 {", "        if suit_counts[suit_index] >= 5 && suit_counts[0] < 7 {")),
+    M("c11-seat-privilege", ["C11"], (SD, "                winner_indexes.insert(i);", "                if i == 0 || power_index < u16::MAX { winner_indexes.insert(i); }")),
+    M("c17-iterate-orphans", ["C17"], (HRS, OLD_LOOP, """        for (pair, probability) in &orphan_card_pairs {
+            tokens.push(HandRangeToken::new(
+                HandRangeTokenKind::SingleCardPair(*pair),
+                *probability,
+            ));
+        }
+""")),
+    M("c17-collect-vec", ["C17"], (HRS, OLD_LOOP, """        let orphans: Vec<(&CardPair, &f32)> = orphan_card_pairs.iter().collect();
+        for (pair, probability) in orphans {
+            tokens.push(HandRangeToken::new(
+                HandRangeTokenKind::SingleCardPair(*pair),
+                *probability,
+            ));
+        }
+""")),
+    M("c17-first-item", ["C17"], (HRS, "        let mut pocket_start_rank = None;\n", "        let mut pocket_start_rank = None;\n        if let Some((rp, _)) = rank_pairs.iter().next() { if let RankPair::Pocket(r) = rp { pocket_start_rank = Some(*r); } }\n")),
+    M("benign-c17-count", ["C17"], (HRS, "        let mut tokens = vec![];\n\n        let mut pocket_start_rank = None;", "        let mut tokens = Vec::with_capacity(orphan_card_pairs.iter().count());\n\n        let mut pocket_start_rank = None;"), benign=True),
     M("c08-recursion", ["C08"], (FE, """        loop {
             if let Some(showdown) = self.next_deal()? {
                 return Some(showdown);
